@@ -103,7 +103,7 @@ _CLR = ['merged_extent_clear_of_free']
 _CLA = ['merged_extent_clear_of_allocated']
 FREE_USES = {
     'merged_extent_clear_of_free': _SE + _CLR0 + ['no_two_free_blocks_touch'],
-    'merged_extent_clear_of_allocated': _CLA0,
+    'merged_extent_clear_of_allocated': _CLA0 + ['allocated_blocks_wf'],
     'allocated_blocks_wf': ['allocated_blocks_wf'],
     'allocated_blocks_disjoint': ['allocated_blocks_disjoint'],
     'allocated_disjoint_from_free': _SE + ['allocated_disjoint_from_free'] + _CLA,
@@ -115,8 +115,9 @@ FREE_USES = {
                                          'no_duplicates_in_bucket', 'no_empty_bucket', '*ext'],
     'no_duplicates_in_bucket': _SE + ['no_duplicates_in_bucket', 'every_listed_block_is_free',
                                       'buckets_are_distinct_lists', 'no_empty_bucket', '*ext'],
-    'every_free_block_is_listed': _SE + ['every_free_block_is_listed', 'buckets_are_distinct_lists',
+    'every_free_block_is_listed': _SE + ['every_free_block_is_listed', 'bucket_of_this_length_is_its_own_list',
                                          'no_empty_bucket', '*ext'],
+    'bucket_of_this_length_is_its_own_list': ['buckets_are_distinct_lists'],
     'no_empty_bucket': ['no_empty_bucket', 'buckets_are_distinct_lists', '*ext'],
     'buckets_are_distinct_lists': ['buckets_are_distinct_lists', 'no_empty_bucket'],
     'lengths_sorted': ['lengths_sorted', '*ext'],
@@ -174,7 +175,8 @@ def build(w):
         # _absorb is used through its contract; at each call the quantified hypotheses collected so far are dropped
         # except the two about the block being freed: _absorb's postcondition re-establishes the whole invariant
         forget={'heap.Heap._absorb': ['block_disjoint_from_free', 'block_disjoint_from_allocated',
-                                     'prev_extent_clear_of_free', 'prev_extent_clear_of_allocated']},
+                                     'prev_extent_clear_of_free', 'prev_extent_clear_of_allocated',
+                                     'next_extent_clear_of_free', 'next_extent_clear_of_allocated']},
         uses=FREE_USES,
         lemmas=[
             # the neighbour found through the stop index is a registered, listed, well-placed free block, and its
@@ -220,6 +222,10 @@ def build(w):
                     'implies(has(%s, (a, x)) and a == arena, %s[2] <= start or stop <= x)' % (S, SB)),
                 'merged_extent_clear_of_allocated': Forall(AXY,
                     'implies(has(%s, (a, x, y)) and a == arena, y <= start or stop <= x)' % A)}},
+            {'before': 'length = stop - start', 'prove': {
+                'bucket_of_this_length_is_its_own_list': Forall({'n': 'ints()'},
+                    'implies(has(%s, n) and has(%s, stop - start) and n != stop - start, '
+                    'get(%s, n) != get(%s, stop - start))' % (L, L, L, L))}},
         ],
         requires=free_req,
         modifies=[S + '.*', E + '.*', L + '.*', LN + '.*', 'list<tup[ref[Arena],int,int]>.*'],
